@@ -68,7 +68,7 @@ def evaluate(ctx, b, lib, model_exe, n_pops, per_class):
     items = []     # (violation, text, base index)
     bases = []
     for _ in range(n_pops):
-        pop = G.gen_population(rng, sch, rng.randint(4, 9))
+        pop = W.gen_population(rng, sch, rng.randint(4, 9))
         bases.append((pop, W.render_file(sch.name, pop)))
         for v in W.violations(rng, sch, pop, per_class):
             items.append((v, W.render_violation(sch.name, v), len(bases) - 1))
@@ -129,7 +129,6 @@ def run(ctx):
         "is h_p21, not p21read itself)",
         "one violation per file; fewer than _maxErrorCount errors; no &SCOPE, no user-defined entities",
         "legal externally mapped combinations are given to the model as a table (C08's subject)",
-        "`a value where an attribute is derived` is not generated (the schema generator has no DERIVE redeclarations)",
     ]
     C01.lean_side(ctx, "StepModel.Props.C03")
     model_exe = ctx.model_exe("m_c01")
@@ -146,7 +145,7 @@ def run(ctx):
             break
     ctx.cov["rule"] = ("generated schemas (plus an abstract supertype) x conforming closed populations x one violation per file from: "
                        "wrong literal kind (attribute / aggregate element), undeclared enumeration item, `*` for a non-derived "
-                       "attribute, `$` for a required aggregate, dangling / wrong-type reference (attribute / aggregate element), "
+                       "attribute, a value for a derived one, `$` for a required aggregate, dangling / wrong-type reference (attribute / aggregate element), "
                        "SELECT value outside the list (typed / reference), too few / too many parameters, unknown / abstract "
                        "keyword (simple / complex part), duplicate id, unterminated instance / string; at first / middle / "
                        "last / only parameter positions, in simple and complex instances")
